@@ -23,6 +23,9 @@ enum Op {
     Pid,
     ExitStatus,
     Drop,
+    /// another, unrelated process is started through the library while this Popen is alive (not an operation on this Popen:
+    /// the model is not told about it; it must not touch this Popen's child in any way)
+    SpawnOther,
 }
 
 impl Op {
@@ -38,6 +41,7 @@ impl Op {
             Op::Pid => "pid".into(),
             Op::ExitStatus => "status".into(),
             Op::Drop => "drop".into(),
+            Op::SpawnOther => "spawn".into(),
         }
     }
     fn parse(s: &str) -> Op {
@@ -324,6 +328,15 @@ fn gen_case(rng: &mut Rng, idx: usize) -> Case {
         };
         ops.push(op);
     }
+    if idx % 10 == 5 {
+        // an unrelated launch somewhere in the sequence, often after a detach (choices from a copy of the generator state)
+        let mut r2 = rng.clone();
+        let at = r2.below(ops.len() as u64 + 1) as usize;
+        ops.insert(at, Op::SpawnOther);
+        if r2.chance(2, 3) {
+            ops.insert(r2.below(at as u64 + 1) as usize, Op::Detach);
+        }
+    }
     if rng.chance(1, 2) {
         ops.push(Op::Drop);
     }
@@ -466,6 +479,18 @@ fn run_case(c: &Case) -> CaseResult {
                     p.detach();
                     "ok".into()
                 }
+                Op::SpawnOther => {
+                    if let Ok(mut other) = Popen::create(&["/bin/true"], PopenConfig { detached: true, ..PopenConfig::default() }) {
+                        let opid = other.pid().unwrap_or(0) as pid_t;
+                        other.detach();
+                        drop(other);
+                        unsafe {
+                            let mut st = 0;
+                            interpose::real_waitpid(opid, &mut st, 0);
+                        }
+                    }
+                    "ok".into()
+                }
                 Op::Pid => match p.pid() {
                     Some(x) => format!("pid:{}", if x as pid_t == pid { CANON_PID } else { x as i64 }),
                     None => "none".into(),
@@ -484,8 +509,15 @@ fn run_case(c: &Case) -> CaseResult {
                     "ok".into()
                 }
             };
-            rets.push(ret.clone());
             let new_calls = &w.calls[calls_before..];
+            if let Op::SpawnOther = op {
+                // nothing about this Popen's child may be asked or done on that occasion
+                if let Some(cl) = new_calls.iter().find(|c| c.starts_with(&format!("wp:{}:", CANON_PID)) || c.starts_with(&format!("kill:{}:", CANON_PID))) {
+                    oracle.push(("C10".into(), format!("starting an unrelated process made the library issue {} about this Popen's child behind the Popen's back (its state still says running)", cl)));
+                }
+                continue;
+            }
+            rets.push(ret.clone());
             // ---------------- direct oracles on the implementation's own behaviour
             // C09: truth
             if let Some(st) = &reported {
@@ -679,7 +711,7 @@ fn run_case(c: &Case) -> CaseResult {
         let mut st = 0;
         interpose::real_waitpid(pid, &mut st, 0);
     }
-    let mut ops_s: Vec<String> = c.ops.iter().map(|o| o.show()).collect();
+    let mut ops_s: Vec<String> = c.ops.iter().filter(|o| !matches!(o, Op::SpawnOther)).map(|o| o.show()).collect();
     if !matches!(c.ops.last(), Some(Op::Drop)) {
         ops_s.push("drop".into());
     }
